@@ -41,6 +41,7 @@ def build_config(scn):
     runs = scn['runs']
     suites, execs = {}, {}
     per_exe = {}
+    nsfx = deco.get('name_suffix', '')
     for i, r in enumerate(runs):
         bench = {'B%d' % i: _bench_details(r)}
         suite = {'gauge_adapter': 'RebenchLog' if r.get('adapter', True) else 'NoSuchThing',
@@ -49,20 +50,20 @@ def build_config(scn):
         if r.get('sbuild') is not None:
             suite['location'] = '.'
             suite['build'] = ['sbuild %d' % r['sbuild']]
-        suites['S%d' % i] = suite
-        per_exe.setdefault(r['exe'], []).append('S%d' % i)
+        suites['S%d%s' % (i, nsfx)] = suite
+        per_exe.setdefault(r['exe'], []).append('S%d%s' % (i, nsfx))
         e = {'path': '.', 'executable': 'x%d' % r['exe']}
         if deco.get('env'):
             e['env'] = dict(deco['env'])
         if r.get('ebuild') is not None:
             e['build'] = ['ebuild %d' % r['ebuild']]
-        prev = execs.get('E%d' % r['exe'])
+        prev = execs.get('E%d%s' % (r['exe'], nsfx))
         if prev is not None and prev.get('build') and not e.get('build'):
             e['build'] = prev['build']
-        execs['E%d' % r['exe']] = e
+        execs['E%d%s' % (r['exe'], nsfx)] = e
     cfg = {'default_experiment': 'T', 'default_data_file': 't.data',
            'benchmark_suites': suites, 'executors': execs,
-           'experiments': {'T': {'executions': [{'E%d' % x: {'suites': ss}} for x, ss in sorted(per_exe.items())]}}}
+           'experiments': {'T': {'executions': [{'E%d%s' % (x, nsfx): {'suites': ss}} for x, ss in sorted(per_exe.items())]}}}
     return cfg
 
 
